@@ -79,6 +79,14 @@ def scalar_forms(rng, quick):
     for t in ["tgt", "arr[1]", "arr[@]", "nope", "1", "@", ""]:
         out.append(("tgt=TV; arr=(e0 'e 1' e2); set -- p1 p2; v=%s" % sq(t), "${!v}", "indirect", {}))
         out.append(("tgt=TV; arr=(e0 'e 1' e2); set -- p1 p2; v=%s" % sq(t), "${!v:-dflt}", "indirect", {}))
+    # ${a[k]:=w}: the default is stored under exactly that key / index (also when the array was only declared)
+    for setup in ("declare -A m", "declare -A m=()", "declare -A m=([z]=1)", "declare -a m", "m=(p q)", "unset m"):
+        for w in ("${m[key]:=v} ${m[key]} ${!m[@]}", "${m[$q]:=w} ${!m[@]}", "${m[1+1]:=two} ${!m[@]}", "${m[2]:=x} ${m[2]} ${#m[@]}", "${m[0]=d} ${m[@]}"):
+            if setup in ("declare -a m", "m=(p q)", "unset m") and ("key" in w or "$q" in w):
+                continue        # a word key on an indexed array is an arithmetic matter (C07)
+            if "[z]=1" in setup:
+                w = w.replace("${!m[@]}", "${#m[@]} ${m[z]}")       # (the order in which an associative array lists its keys is unspecified)
+            out.append((setup + "; q='some key'", w, "elem-default", {"val2": setup}))
     out.append(("pre1=a; pre2=b; prex=c; other=d", "${!pre*}", "prefixnames", {}))
     out.append(("pre1=a; pre2=b; prex=c; other=d", "${!pre@}", "prefixnames", {}))
     return out
